@@ -17,7 +17,7 @@ checks = sys.argv[2:]
 meta = json.load(open(f'{src}/meta.json'))
 prop = meta['property']
 name = f"{prop}-{os.path.basename(src)}"
-m2 = re.search(r'seed([23456789])_(\w+)/(m\d+|alt_m\d+)$', src)
+m2 = re.search(r'seed(\d+)_(\w+)/(m\d+|alt_m\d+)$', src)
 if m2:
     name = f"{prop}-r{m2.group(1)}-{m2.group(2)}{m2.group(3)}"   # later rounds: <property>-r<round>-<agent><mK>
 if RECHECK:
